@@ -154,7 +154,7 @@ func DamageFen(fen string, rng *PRNG) (string, string) {
 	ranks := strings.Split(f[0], "/")
 	join := func() string { return strings.Join(append([]string{strings.Join(ranks, "/")}, f[1:]...), " ") }
 	for tries := 0; tries < 8; tries++ {
-		switch rng.Intn(14) {
+		switch rng.Intn(18) {
 		case 0: // rank overflow: digit past the edge
 			i := rng.Intn(len(ranks))
 			ranks[i] = ranks[i] + []string{"1", "8", "9", "p", "PPPP"}[rng.Intn(5)]
@@ -224,6 +224,45 @@ func DamageFen(fen string, rng *PRNG) (string, string) {
 			i := rng.Intn(len(ranks))
 			ranks[i] = []string{"xxxxxxxx", "8x", "pP?pPpPp", "४४", "1-6"}[rng.Intn(5)]
 			return join(), "bad_chars"
+		case 14: // en passant square anywhere on the board (edge ranks, wrong rank for the side to move, no pawn)
+			if len(f) < 4 {
+				continue
+			}
+			f[3] = string(rune('a'+rng.Intn(8))) + string(rune('1'+rng.Intn(8)))
+			if rng.Chance(0.4) {
+				f[3] = string(rune('a'+rng.Intn(8))) + []string{"1", "8"}[rng.Intn(2)]
+			}
+			return strings.Join(f, " "), "ep_anywhere"
+		case 15: // side to move flipped (the side not to move may be in check)
+			if len(f) < 2 {
+				continue
+			}
+			if f[1] == "w" {
+				f[1] = "b"
+			} else {
+				f[1] = "w"
+			}
+			return strings.Join(f, " "), "side_flipped"
+		case 16: // castling rights unrelated to the board
+			if len(f) < 3 {
+				continue
+			}
+			f[2] = []string{"KQkq", "K", "Q", "k", "q", "Kq", "Qk", "KQ", "kq"}[rng.Intn(9)]
+			return strings.Join(f, " "), "castling_unrelated"
+		case 17: // one piece letter replaced by another
+			b := []byte(f[0])
+			var idx []int
+			for i, c := range b {
+				if (c >= 'a' && c <= 'z') || (c >= 'A' && c <= 'Z') {
+					idx = append(idx, i)
+				}
+			}
+			if len(idx) == 0 {
+				continue
+			}
+			b[idx[rng.Intn(len(idx))]] = "pnbrqkPNBRQK"[rng.Intn(12)]
+			f[0] = string(b)
+			return strings.Join(f, " "), "piece_replaced"
 		}
 	}
 	return fen + " 1", "extra_field"
@@ -322,8 +361,11 @@ func GenC16Session(seed uint64) *Scenario {
 			posCmd = strings.Replace(posCmd, "position startpos", "position fen "+rules.StartFen, 1)
 		}
 		okPos := emit(gapAfterResult(rng), posCmd)
-		if !okPos {
+		if !okPos && rng.Chance(0.5) {
 			// recovery: a valid position so that the session can go on
+			// (otherwise the following go searches whatever position the
+			// engine holds after the damaged line, possibly one it accepted
+			// from the damaged text)
 			posCmd, root = genPosition(rng, 0)
 			add(int64(rng.Intn(200)), "send", posCmd)
 		}
